@@ -12,6 +12,11 @@ import (
 func TestReplay(t *testing.T) {
 	var c Consts
 	graph.Const(&c)
+	if c.Kind == "reg" {
+		a := NewReg(t, c)
+		graph.RunReplay(t, a, a.W.Ctx, nil)
+		return
+	}
 	a := New(t, c)
 	graph.RunReplay(t, a, a.W.Ctx, nil)
 }
@@ -19,6 +24,11 @@ func TestReplay(t *testing.T) {
 func TestPath(t *testing.T) {
 	var c Consts
 	graph.Const(&c)
+	if c.Kind == "reg" {
+		a := NewReg(t, c)
+		graph.RunPath(t, a, a.W.Ctx)
+		return
+	}
 	a := New(t, c)
 	graph.RunPath(t, a, a.W.Ctx)
 }
